@@ -14,7 +14,7 @@ from vcheck import Case, gz, gzlist, gnlist, gnmat, gq, gopt
 import tgen
 from props.c02_util import (X_dense, X_sparse, X_k, X_t, X_sum, shape_of, pdense, pfun, all_subs, mk_obj, mat_np,
                             obs_any, obs_ints, obs_pdense, gden, gobs, gmatch, gvecs, gmat, designate,
-                            rand_matrix, rand_vec, rand_k, rand_t, family, rand_sum)
+                            rand_matrix, rand_vec, rand_k, rand_t, family, rand_sum, degenerate_sparse, relayout, rand_t_struct)
 
 PROP = "C02"
 LEVEL = "proof"
@@ -23,29 +23,33 @@ COQ_TARGETS = ["Props/C02.vo", "Model/C02Harness.vo", "Model/Harness.vo"]
 THEOREM_FILES = ["Props/C02.v"]
 COQ_IMPORTS = ("From Coq Require Import List ZArith Bool Arith QArith Qcanon.\n"
                "From PV Require Import Base.Index Base.Perm Base.Sum Np.Array Model.Sparse Model.Repr Model.Harness "
-               "Np.NpZ Gen.GenUtils Model.C02Spec Model.C02Dense Model.C02Sparse Model.C02Modes Model.C02Kruskal Model.C02SpKernels Model.C02Absorb Model.C02Harness.\n")
+               "Np.NpZ Gen.GenUtils Model.C02Spec Model.C02Dense Model.C02Sparse Model.C02Modes Model.C02Kruskal Model.C02SpKernels Model.C02Absorb Model.C02Tenmat Model.C02SpMore Model.C02KruskalMore Model.C02Tucker Model.C02Harness.\n")
 RULE = ("mttkrp/mttkrps additionally on 4-, 5- and 6-way tensors (<= ~200 entries) with skewed and balanced shapes so that every "
         "split index of min_split and Khatri-Rao products of >= 2 matrices occur in each helper; dims orders include cyclic "
         "(non-involutive) ones; otherwise shapes with <= 4 modes / <= 72 entries incl. distinct sizes (2,3,4), singleton modes and 1-way; every non-empty mode "
         "subset under dims (ascending, descending, random order) and exclude_dims, multiplicand lists of length |dims| and N; "
         "operands in dense / sparse / Kruskal / Tucker / sum form built from one random integer array; fill levels on both "
-        "sides of the 50% switch; Kruskal MTTKRP operands with non-unit weights. non-trivial = more than one cell and a "
-        "nonzero entry; distinct = distinct (op, arguments)")
+        "sides of the 50% switch; Kruskal MTTKRP operands with non-unit weights; sparse operands with no / exactly one stored entry of several "
+        "origins (empty arrays, shape only, exact cancellation (S+T)-T) in every sparse product; multiplicands and Kruskal / Tucker factor matrices "
+        "in C / F / strided / transposed-view layouts; factor lists of mixed dtype (int64, float32, float64 with dyadic entries); structured Tucker "
+        "operands (repeated / orthonormal unit-length selection columns) on both sides of ttensor.norm's size switch; result containers pinned. "
+        "non-trivial = more than one cell and a nonzero entry; distinct = distinct (op, arguments)")
 EXPLANATION = ("Correspondence compares pyttb's raw result with spec_op applied to the denotation of the operand literal "
                "(exact integers in Z; the norm in Qc) and, for every kernel with an algorithm model, with impl_op as well. Theorems in "
                "Props/C02.v state impl_op = spec_op for all shapes and all values of a commutative ring: dense ttv / ttm (single and list form, "
-               "request resolved by the GENERATED tt_dimscheck), dense mttkrp (all branches), Kruskal-operand weight absorption, "
-               "dense / sparse / Kruskal innerprod and norm, sparse ttv (one mode) and mttkrp, Kruskal ttv (one mode) and mttkrp, linearity over sums.")
+               "request resolved by the GENERATED tt_dimscheck, also in the caller's own order), dense mttkrp (all branches), Kruskal-operand weight absorption, "
+               "dense ttt / collapse (any reducer) / contract / scale / mask via to_tenmat, dense / sparse / Kruskal innerprod and norm, sparse ttv (any mode set), "
+               "ttm, collapse, contract, scale, mask and mttkrp, Kruskal ttv (any mode set) and mttkrp, Tucker ttm / ttv / mttkrp, linearity over sums.")
 CORRESPONDENCE_ONLY = [
     "dense mttkrps (algorithm with min_split / mttv_left / mttv_mid: no algorithm model; compared entry-wise with spec_mttkrp for every mode on 4-, 5-, 6-way tensors covering every split index)",
-    "dense ttt, contract, collapse, scale, mask, ttsv (via tenmat; spec only)",
-    "sparse ttv over several modes and the choice of the result container at the 50% switch (single mode proved; both sides of the switch denote the same array by C02_sparse_switch), sparse ttm, contract, collapse, scale, mask",
-    "Kruskal ttv over several modes (single mode proved), Kruskal innerprod with a dense / sparse / Tucker operand (via the operand's ttv), Kruskal mask",
-    "Tucker ttv, ttm, mttkrp, innerprod, norm, reconstruct",
+    "dense ttsv (spec only); gather_wrap_dims inside to_tenmat (the proved ttt / collapse / scale models start from its documented result)",
+    "sparse ttm in list form beyond the first sorted mode (the first mode is the proved coordinate-list model, its dense result goes through the proved tensor.ttm), "
+    "the choice of the result container (scalar / ndarray / tensor / sptensor and the 50% switch of sptensor.ttv / contract: evaluated in Coq on the expected array, no theorem), "
+    "sptensor.collapse with a reducer other than sum",
+    "Kruskal innerprod with a dense / sparse / Tucker operand (via the operand's ttv), Kruskal mask",
+    "Tucker innerprod, norm (both branches of the size switch), reconstruct; Tucker mttkrp with a Kruskal operand is the proved factor-list theorem composed with C02_mttkrp_kruskal_operand by hand",
     "sumtensor operations as executed part by part (linearity of the defining sums is proved: C02_sum_linear_*)",
-    "spec_ttv / spec_ttm_list are evaluated by the correspondence in the CALLER's order of (mode, multiplicand) pairs; the theorems C02_ttv_dense_req / "
-    "C02_ttm_dense_req are stated over the sorted modes with the caller's association `attach` (invariance of spec_ttv under a joint permutation of "
-    "(dims, vectors) is not proved; both forms are compared with pyttb on every generated request)",
+    "mixed-dtype factor lists (int64 / float32 / float64) and memory layouts of operands: the theorems speak about values; dtype promotion and layout are covered by generated inputs only",
 ]
 ASSUMPTIONS = [
     "numpy transpose / F-order reshape / matmul / fancy indexing behave as the tabulate-style definitions of Np/Array.v and Model/C02Dense.v",
@@ -116,6 +120,29 @@ def pick_reps(rng, fam, allowed, k):
     return reps[:k]
 
 
+def mixed_dtypes(rng, U, shp):
+    """factor-list operand with MIXED dtypes: factor m is handed to pyttb as H_m / 2**e_m in dtype d_m, H_m = the integer matrix kept in
+    U['factors'] (what the Coq side multiplies); d_m in int64 (e = 0), float32 (e = 0), float64 (e = 0 | 1 | at most one factor with
+    e = 30: entries k + b / 2**30, exact in float64, not in float32).  pyttb's result times 2**(sum of the e_m used) is an exact integer."""
+    dt = []
+    big_used = False
+    N = len(shp)
+    forced = {}
+    if N >= 2:                      # always at least one integer-typed and one non-integer float64 factor
+        a_, b_ = rng.sample(range(N), 2)
+        forced = {a_: rng.choice(["int", "int", "f32"]), b_: rng.choice(["f64_1", "f64_1", "f64_30"])}
+    for m in range(N):
+        ch = forced.get(m) or rng.choice(["int", "int", "f32", "f64_0", "f64_1", "f64_1", "f64_30"])
+        if ch == "f64_30" and big_used:
+            ch = "f64_1"
+        if ch == "f64_30":
+            big_used = True
+            U["factors"][m] = [[x * 2 ** 30 + rng.choice([-1, 0, 1]) for x in row] for row in U["factors"][m]]
+        dt.append({"int": ["int", 0], "f32": ["f32", 0], "f64_0": ["f64", 0], "f64_1": ["f64", 1], "f64_30": ["f64", 30]}[ch])
+    U["dt"] = dt
+    return U
+
+
 def gen_cases(rng, tier):
     big = tier == "thorough"
     cases = []
@@ -131,14 +158,17 @@ def gen_cases(rng, tier):
     for shp in shapes:
         N = len(shp)
         # ---- ttv: all designations
-        for (dims, excl, M) in mode_requests(rng, N, big):
+        treqs = mode_requests(rng, N, big)
+        if not big and N >= 3:
+            treqs = [q for q in treqs if rng.random() < 0.6]
+        for (dims, excl, M) in treqs:
             fam = fam_for(shp)
             if "sum" not in fam and rng.random() < 0.25:
                 fam["sum"] = rand_sum(rng, shp)
             for rep in pick_reps(rng, fam, ["dense", "sparse", "k", "t", "sum"], 5 if big else 2):
                 vecs = multiplicands(rng, shp, dims, excl, M, lambda m: rand_vec(rng, shp[m]))
                 single = (M == 1 and dims is not None and rng.random() < 0.3 and rep in ("dense", "sparse"))
-                cases.append(Case("ttv", {"X": fam[rep], "dims": dims, "excl": excl, "vecs": vecs, "single": single}, nontriv(fam[rep])))
+                cases.append(Case("ttv", {"X": fam[rep], "dims": dims, "excl": excl, "vecs": vecs, "single": single, "mlay": rng.choice([0, 0, 1, 2])}, nontriv(fam[rep])))
         # sparse ttv on both sides of the 50% switch, incl. empty and single nonzero
         for fill in (0.0, 0.15, 0.5, 0.9):
             for (dims, excl, M) in rng.sample(mode_requests(rng, N, big), min(3 if not big else 8, len(mode_requests(rng, N, big)))):
@@ -162,7 +192,7 @@ def gen_cases(rng, tier):
                     return rand_matrix(rng, shp[m], J) if tr else rand_matrix(rng, J, shp[m])
                 mats = multiplicands(rng, shp, dims, excl, M, one_mat)
                 single = (M == 1 and dims is not None and rng.random() < 0.4)
-                cases.append(Case("ttm", {"X": fam[rep], "dims": dims, "excl": excl, "mats": mats, "tr": tr, "single": single}, nontriv(fam[rep])))
+                cases.append(Case("ttm", {"X": fam[rep], "dims": dims, "excl": excl, "mats": mats, "tr": tr, "single": single, "mlay": rng.choice([0, 0, 1, 2, 3])}, nontriv(fam[rep])))
         # ---- mttkrp / mttkrps
         if N >= 2:
             for n in range(N):
@@ -175,13 +205,17 @@ def gen_cases(rng, tier):
                         for kr in (False, True):
                             U = {"factors": [rand_matrix(rng, d, R) for d in shp],
                                  "weights": ([rng.choice([-1, 2, 3]) for _ in range(R)] if rng.random() < 0.75 else [1] * R) if kr else None}
-                            cases.append(Case("mttkrp", {"X": fam[rep], "n": n, "U": U}, nontriv(fam[rep])))
+                            if not kr and rng.random() < 0.5:
+                                U = mixed_dtypes(rng, U, shp)
+                            cases.append(Case("mttkrp", {"X": fam[rep], "n": n, "U": U, "mlay": rng.choice([0, 0, 1, 2, 3])}, nontriv(fam[rep])))
             for _ in range(4 if big else 2):
                 fam = fam_for(shp)
                 R = rng.randint(1, 3)
                 for kr in (False, True):
                     U = {"factors": [rand_matrix(rng, d, R) for d in shp],
                          "weights": ([rng.choice([-1, 2, 3]) for _ in range(R)] if rng.random() < 0.7 else [1] * R) if kr else None}
+                    if not kr and rng.random() < 0.5:
+                        U = mixed_dtypes(rng, U, shp)
                     cases.append(Case("mttkrps", {"X": fam["dense"], "U": U}, nontriv(fam["dense"])))
         # ---- innerprod (all representation pairs incl. sum), norm
         for _ in range(3 if big else 1):
@@ -271,6 +305,81 @@ def gen_cases(rng, tier):
                 rng.shuffle(modes)
             samples = [[rng.randrange(shp[m]) for _ in range(rng.randint(1, 3))] for m in modes]
             cases.append(Case("reconstruct", {"X": T, "modes": modes, "samples": samples}, nontriv(T)))
+    # ---- degenerate sparse operands in EVERY sparse product stream: no stored entry (three origins) / exactly one stored entry
+    #      (two origins); multiplicands in varying memory layouts
+    for shp in shapes:
+        N = len(shp)
+        degs = degenerate_sparse(rng, shp)
+        if not big:
+            degs = [degs[rng.randrange(3)], degs[3 + rng.randrange(2)]] + ([rng.choice(degs)] if rng.random() < 0.5 else [])
+        for Xs in degs:
+            nt = bool(Xs["vals"]) and math.prod(shp) > 1
+            reqs = mode_requests(rng, N, big)
+            for (dims, excl, M) in rng.sample(reqs, min(len(reqs), 4 if big else 2)):
+                vecs = multiplicands(rng, shp, dims, excl, M, lambda m: rand_vec(rng, shp[m], 1, 3))
+                cases.append(Case("ttv", {"X": Xs, "dims": dims, "excl": excl, "vecs": vecs, "single": False, "mlay": rng.randrange(3)}, nt))
+            cases.append(Case("ttv", {"X": Xs, "dims": None, "excl": None, "vecs": [rand_vec(rng, d, 1, 3) for d in shp], "single": False}, nt))
+            for (dims, excl, M) in rng.sample(reqs, min(len(reqs), 3 if big else 1)):
+                tr = rng.random() < 0.5
+                def one_mat(m):
+                    J = rng.choice([1, 2, 3])
+                    return rand_matrix(rng, shp[m], J) if tr else rand_matrix(rng, J, shp[m])
+                mats = multiplicands(rng, shp, dims, excl, M, one_mat)
+                cases.append(Case("ttm", {"X": Xs, "dims": dims, "excl": excl, "mats": mats, "tr": tr, "single": False, "mlay": rng.randrange(4)}, nt))
+            if N >= 2:
+                for n in (range(N) if big else [rng.randrange(N)]):
+                    R = rng.randint(1, 2)
+                    kr = rng.random() < 0.5
+                    U = {"factors": [rand_matrix(rng, d, R) for d in shp],
+                         "weights": [rng.choice([-1, 2, 3]) for _ in range(R)] if kr else None}
+                    cases.append(Case("mttkrp", {"X": Xs, "n": n, "U": U, "mlay": rng.randrange(4)}, nt))
+            cases.append(Case("norm", {"X": Xs}, nt))
+            fb = family(rng, shp, 0.7)
+            fb.setdefault("k", rand_k(rng, shp)); fb.setdefault("t", rand_t(rng, shp))
+            for rb in (("dense", "sparse", "k", "t") if big else rng.sample(["dense", "sparse", "k", "t"], 2)):
+                cases.append(Case("innerprod", {"X": Xs, "Y": fb[rb]}, nt and nontriv(fb[rb])))
+                cases.append(Case("innerprod", {"X": fb[rb], "Y": Xs}, nt and nontriv(fb[rb])))
+            subsets = [list(cmb) for r in range(1, N + 1) for cmb in itertools.combinations(range(N), r)]
+            for d in rng.sample(subsets, min(len(subsets), 4 if big else 2)):
+                cases.append(Case("collapse", {"X": Xs, "dims": d}, nt))
+                fshape = [shp[m] for m in sorted(d)]
+                fdata = tgen.rand_dense(rng, fshape, rng.choice([0.6, 1.0]), -2, 3)
+                for fk in ["tensor", "sptensor"] + (["ndarray"] if len(d) == 1 else []):
+                    cases.append(Case("scale", {"X": Xs, "dims": d, "fshape": fshape, "fdata": fdata, "fkind": fk}, nt))
+            cases.append(Case("collapse", {"X": Xs, "dims": None}, nt))
+            prs = [(i1, i2) for i1 in range(N) for i2 in range(N) if i1 != i2 and shp[i1] == shp[i2]]
+            for (i1, i2) in (prs if big else prs[:1]):
+                cases.append(Case("contract", {"X": Xs, "i1": i1, "i2": i2}, nt))
+            wdata = [1 if rng.random() < 0.5 else 0 for _ in range(math.prod(shp))]
+            if Xs["subs"]:
+                wdata[tgen.all_subs(shp).index(list(Xs["subs"][0]))] = 1      # the mask selects the stored entry
+            if not any(wdata):
+                wdata[rng.randrange(len(wdata))] = 1
+            wsubs, wvals = tgen.dense_to_sparse(shp, wdata, rng, rng.choice(["sorted", "reversed", "random"]))
+            cases.append(Case("mask", {"X": Xs, "W": X_sparse(shp, wsubs, wvals)}, nt))
+    # ---- structured Tucker operands (unit-length factor columns: repeated / orthonormal selection columns coupled by the core), on both
+    #      sides of ttensor.norm's size switch prod(shape) > prod(core.shape): norm, innerprod with every representation, ttv, mttkrp
+    for shp in shapes:
+        N = len(shp)
+        for kind, wide in (("selection", False), ("orthonormal", False), ("selection", True)) + ((("orthonormal", True), ("selection", False)) if big else ()):
+            T = rand_t_struct(rng, shp, kind, wide)
+            nt = nontriv(T)
+            cases.append(Case("norm", {"X": T}, nt))
+            fb = family(rng, shp, 0.7)
+            fb.setdefault("k", rand_k(rng, shp)); fb["t"] = rand_t_struct(rng, shp, rng.choice(["selection", "orthonormal"]), rng.random() < 0.3)
+            for rb in (("dense", "sparse", "k", "t") if big else rng.sample(["dense", "sparse", "k", "t"], 2)):
+                cases.append(Case("innerprod", {"X": T, "Y": fb[rb]}, nt and nontriv(fb[rb])))
+                if big or rng.random() < 0.5:
+                    cases.append(Case("innerprod", {"X": fb[rb], "Y": T}, nt and nontriv(fb[rb])))
+            cases.append(Case("innerprod", {"X": T, "Y": T}, nt))
+            reqs = mode_requests(rng, N, big)
+            (dims, excl, M) = rng.choice(reqs)
+            vecs = multiplicands(rng, shp, dims, excl, M, lambda m: rand_vec(rng, shp[m]))
+            cases.append(Case("ttv", {"X": T, "dims": dims, "excl": excl, "vecs": vecs, "single": False}, nt))
+            if N >= 2:
+                R = rng.randint(1, 2)
+                U = {"factors": [rand_matrix(rng, d, R) for d in shp], "weights": None}
+                cases.append(Case("mttkrp", {"X": T, "n": rng.randrange(N), "U": U}, nt))
     # ---- mttkrp / mttkrps on 4-way and 5-way tensors, skewed and balanced: every value of min_split (0 .. N-2) and hence
     #      Khatri-Rao products of two or more matrices in each helper of mttkrps (right / left start, mttv_mid, mttv_left)
     for shp in (MTT_SHAPES_T if big else MTT_SHAPES_Q):
@@ -289,6 +398,8 @@ def gen_cases(rng, tier):
                 kr = rng.random() < 0.4
                 U = {"factors": [rand_matrix(rng, d, R) for d in shp],
                      "weights": [rng.choice([-1, 2, 3]) for _ in range(R)] if kr else None}
+                if not kr and rng.random() < 0.5:
+                    U = mixed_dtypes(rng, U, shp)
                 cases.append(Case("mttkrp", {"X": Xd, "n": n, "U": U}, True))
                 if big or rng.random() < 0.5:
                     cases.append(Case("mttkrp", {"X": Xs, "n": n, "U": U}, any(fdata)))
@@ -330,14 +441,14 @@ def run_impl(c):
     try:
         X = mk_obj(ttb, np, a["X"])
         if c.op == "ttv":
-            vecs = [np.array(v, dtype=float) for v in a["vecs"]]
+            vecs = [relayout(np, np.array(v, dtype=float), a.get("mlay", 0)) for v in a["vecs"]]
             if a["single"]:
                 r = X.ttv(vecs[0], int(a["dims"][0]))
             else:
                 r = X.ttv(vecs, dims=_arr(np, a["dims"]), exclude_dims=_arr(np, a["excl"]))
             return {"ok": obs_any(np, ttb, r)}
         if c.op == "ttm":
-            mats = [mat_np(np, m) for m in a["mats"]]
+            mats = [relayout(np, mat_np(np, m), a.get("mlay", 0)) for m in a["mats"]]
             if a["single"]:
                 r = X.ttm(mats[0], int(a["dims"][0]), transpose=a["tr"])
             else:
@@ -345,9 +456,22 @@ def run_impl(c):
             return {"ok": obs_any(np, ttb, r)}
         if c.op in ("mttkrp", "mttkrps"):
             R = len(a["U"]["factors"][0][0])
-            fs = [mat_np(np, f, R) for f in a["U"]["factors"]]
-            U = fs if a["U"]["weights"] is None else ttb.ktensor(fs, np.array(a["U"]["weights"], dtype=float), copy=True)
+            fs = [relayout(np, mat_np(np, f, R), a.get("mlay", 0)) for f in a["U"]["factors"]]
+            dt = a["U"].get("dt")
+            if dt:            # mixed dtypes: int64 / float32 / float64 factors, values H / 2**e (exact)
+                tps = {"int": np.int64, "f32": np.float32, "f64": np.float64}
+                fs = [(f / 2.0 ** e).astype(tps[d]) if e else f.astype(tps[d]) for f, (d, e) in zip(fs, dt)]
+            if a["U"]["weights"] is None:
+                U = fs
+            else:
+                U = ttb.ktensor([np.array(f) for f in fs], np.array(a["U"]["weights"], dtype=float), copy=True)
+                if a.get("mlay"):                         # factor matrices re-assigned by the user in another memory layout
+                    for n_, f in enumerate(fs):
+                        U.factor_matrices[n_] = f
             r = X.mttkrp(U, a["n"]) if c.op == "mttkrp" else X.mttkrps(U)
+            if dt:            # scale back to the exact integers the Coq side computes with H
+                esum = lambda n_: sum(e for m_, (_, e) in enumerate(dt) if m_ != n_)
+                r = np.asarray(r, dtype=float) * 2.0 ** esum(a["n"]) if c.op == "mttkrp" else [np.asarray(x, dtype=float) * 2.0 ** esum(n_) for n_, x in enumerate(r)]
             return {"ok": obs_any(np, ttb, r)}
         if c.op == "innerprod":
             Y = mk_obj(ttb, np, a["Y"])
@@ -400,6 +524,75 @@ def _ttm_pairs(a):
     return [(m, a["mats"][j]) for m, j in prs]
 
 
+
+# ---------------------------------------------------------------- result container (both sides of every data-dependent switch)
+def kind_rule(c):
+    """what container pyttb's code prescribes for the result of a dense / sparse operand: a fixed kind, 'switch' (sparse result kept
+    sparse iff at most half of its entries are nonzero, else densified) or None (not pinned)"""
+    a = c.args
+    X = a["X"]
+    rep = X["rep"]
+    if rep not in ("dense", "sparse"):
+        return None
+    shp = shape_of(X)
+    N = len(shp)
+    if c.op == "ttv":
+        dims, _ = _ttv_pairs(a)
+        if len(set(dims)) == N:
+            return "scalar"
+        return "dense" if rep == "dense" else "switch"
+    if c.op == "collapse":
+        dims = list(range(N)) if a["dims"] is None else a["dims"]
+        rem = N - len(set(dims))
+        if rem == 0:
+            return "scalar"
+        if rep == "dense":
+            return "dense"
+        return "array" if rem == 1 else "sparse"
+    if c.op == "contract":
+        if N == 2:
+            return "scalar"
+        return "dense" if rep == "dense" else "switch"
+    if c.op == "scale":
+        return rep
+    if c.op == "mttkrp":
+        return "array"
+    if c.op == "ttm" and rep == "dense":
+        return "dense"
+    if c.op == "ttt":
+        return "scalar" if len(a["sd"] or []) == N and len(a["od"] or []) == len(shape_of(a["Y"])) else "dense"
+    return None
+
+
+def gkind(c, ob, rs, f):
+    """Gallina conjunct: the observed container is the prescribed one (the 50% rule is evaluated in Coq on the expected array)"""
+    k = kind_rule(c)
+    if k is None:
+        return ""
+    if k == "switch":
+        if ob["k"] not in ("dense", "sparse"):
+            return " && false"
+        return f" && zswitch_ok {gnlist(rs)} {f} {'true' if ob['k'] == 'dense' else 'false'}"
+    return "" if ob["k"] == k else " && false"
+
+
+def kind_oracle(c, ob, want):
+    k = kind_rule(c)
+    if k is None:
+        return None
+    if k == "switch":
+        vals = want[1]
+        k = "dense" if 2 * sum(1 for v in vals if v != 0) > len(vals) else "sparse"
+    if ob["k"] != k:
+        return f"result container is {ob['k']} but the operation prescribes {k} for this input (scalar / 50%-fill switch)"
+    return None
+
+
+def _dlit(ob):
+    """dense literal of a tensor / ndarray / scalar observation (a scalar is the 0-way array)"""
+    return tgen.gdense(ob["shape"], ob["data"]) if ob["k"] in ("dense", "array") else tgen.gdense([], [ob["v"]])
+
+
 def coq_check(c, o):
     a = c.args
     if "exc" in o:
@@ -413,7 +606,7 @@ def coq_check(c, o):
         dims, vs = _ttv_pairs(a)
         rs = [shp[m] for m in range(N) if m not in dims]
         f = f"(zsp_ttv {dX} {gnlist(shp)} {gnlist(dims)} {gvecs(vs)})"
-        e = gmatch(rs, f, ob)
+        e = gmatch(rs, f, ob) + gkind(c, ob, rs, f)
         if X["rep"] == "dense" and ob["k"] in ("dense", "scalar") and obs_ints(ob):
             order = sorted(range(len(dims)), key=lambda j: dims[j])
             sd, sv = [dims[j] for j in order], [vs[j] for j in order]
@@ -424,6 +617,29 @@ def coq_check(c, o):
                   f"{gopt(a['excl'], gzlist)} {gvecs(a['vecs'])}) {lit}")
         if X["rep"] == "sparse" and len(dims) == 1:          # coordinate-list model of sptensor.ttv (one mode), either side of the 50% switch
             e += " && " + gmatch(rs, f"(zimpl_ttv_sp1 {tgen.gsparse(X['shape'], X['subs'], X['vals'])} {dims[0]} {gzlist(vs[0])})", ob)
+        if X["rep"] == "sparse":          # coordinate-list model of sptensor.ttv over all selected modes at once (sorted as tt_dimscheck does)
+            order = sorted(range(len(dims)), key=lambda j: dims[j])
+            sd, sv = [dims[j] for j in order], [vs[j] for j in order]
+            e += " && " + gmatch(rs, f"(zimpl_ttv_sp {tgen.gsparse(X['shape'], X['subs'], X['vals'])} {gnlist(sd)} {gvecs(sv)})", ob)
+        if X["rep"] == "t" and obs_ints(ob) and (ob["k"] == "scalar" or (ob["k"] == "ttensor" and ob["core"]["k"] == "dense")):
+            # ttensor.ttv (Model/C02Tucker.v): raw new core and remaining factors; no mode left: float(newcore)
+            order = sorted(range(len(dims)), key=lambda j: dims[j])
+            sd, sv = [dims[j] for j in order], [vs[j] for j in order]
+            mdl = f"(zimpl_ttv_t {tgen.gttensor(X['core_shape'], X['core_data'], X['factors'])} {gnlist(sd)} {gvecs(sv)})"
+            if ob["k"] == "ttensor":
+                e += (f" && t_eqb {mdl} (mkT {tgen.gdense(ob['core']['shape'], ob['core']['data'])} "
+                      f"[{'; '.join(gmat(f_) for f_ in ob['factors'])}])")
+            else:
+                e += f" && dense_eqb (tcore {mdl}) {tgen.gdense([], [ob['v']])}"
+        if X["rep"] == "k" and obs_ints(ob) and ob["k"] in ("ktensor", "scalar"):
+            # ktensor.ttv over all selected modes (Model/C02KruskalMore.v): raw weights and remaining factors; no mode left: sum(new_weights)
+            order = sorted(range(len(dims)), key=lambda j: dims[j])
+            sd, sv = [dims[j] for j in order], [vs[j] for j in order]
+            mdl = f"(zimpl_ttv_k {tgen.gktensor(X['weights'], X['factors'])} {gnlist(sd)} {gvecs(sv)})"
+            if ob["k"] == "ktensor":
+                e += f" && k_eqb {mdl} {tgen.gktensor(ob['weights'], ob['factors'])}"
+            else:
+                e += f" && (zsumw {mdl} =? {gz(ob['v'])})%Z"
         if X["rep"] == "k" and len(dims) == 1 and ob["k"] == "ktensor" and obs_ints(ob):
             e += (f" && k_eqb (zimpl_ttv_k1 {tgen.gktensor(X['weights'], X['factors'])} {dims[0]} {gzlist(vs[0])}) "
                   f"{tgen.gktensor(ob['weights'], ob['factors'])}")
@@ -438,7 +654,7 @@ def coq_check(c, o):
             items.append(f"({m}%nat, ({J}%nat, {gmat(U)}))")
         trb = 'true' if a['tr'] else 'false'
         f = f"(zsp_ttm_list {dX} {gnlist(shp)} [{'; '.join(items)}] {trb})"
-        e = gmatch(rs, f, ob)
+        e = gmatch(rs, f, ob) + gkind(c, ob, rs, f)
         if X["rep"] == "dense" and ob["k"] == "dense" and obs_ints(ob):
             m = tgen.gdense(X["shape"], X["data"])
             for n_, U in sorted(prs, key=lambda p: p[0]):        # pyttb multiplies mode by mode in ascending mode order
@@ -447,6 +663,21 @@ def coq_check(c, o):
             ms = "[" + "; ".join(f"({len(U[0]) if a['tr'] else len(U)}%nat, {gmat(U)})" for U in a["mats"]) + "]"
             e += (f" && zres_is (zimpl_ttm_req {tgen.gdense(X['shape'], X['data'])} {gopt(a['dims'], gzlist)} "
                   f"{gopt(a['excl'], gzlist)} {ms} {trb}) {tgen.gdense(ob['shape'], ob['data'])}")
+        if X["rep"] == "t" and ob["k"] == "ttensor" and obs_ints(ob) and ob["core"]["k"] == "dense":
+            # ttensor.ttm (Model/C02Tucker.v): every selected factor replaced by M U_n / M^T U_n, core kept: raw core and factors
+            items_s = "; ".join(f"({m_}%nat, ({len(U[0]) if a['tr'] else len(U)}%nat, {gmat(U)}))" for m_, U in sorted(prs, key=lambda p: p[0]))
+            e += (f" && t_eqb (zimpl_ttm_t {tgen.gttensor(X['core_shape'], X['core_data'], X['factors'])} [{items_s}] {trb}) "
+                  f"(mkT {tgen.gdense(ob['core']['shape'], ob['core']['data'])} [{'; '.join(gmat(f_) for f_ in ob['factors'])}])")
+        if X["rep"] == "sparse":
+            # sptensor.ttm: the first sorted mode on the coordinate list (Model/C02SpMore.v), its (dense) result through tensor.ttm for the others
+            sp = sorted(prs, key=lambda p: p[0])
+            n0, U0 = sp[0]
+            s1 = list(shp)
+            s1[n0] = len(U0[0]) if a["tr"] else len(U0)
+            m = f"(ztab {gnlist(s1)} (zimpl_ttm_sp {tgen.gsparse(X['shape'], X['subs'], X['vals'])} {n0} {gmat(U0)} {trb}))"
+            for n_, U in sp[1:]:
+                m = f"(zimpl_ttm_dense {m} {n_} {gmat(U)} {len(U[0]) if a['tr'] else len(U)} {trb})"
+            e += " && " + gmatch(rs, f"(zden {m})", ob)
         return e
     if c.op in ("mttkrp", "mttkrps"):
         U = a["U"]
@@ -458,7 +689,7 @@ def coq_check(c, o):
             f = f"(fun i_ => zsp_mttkrp {dX} {gnlist(shp)} {n} {lam} {Us} (nth 0 i_ 0%nat) (nth 1 i_ 0%nat))"
             return gmatch([shp[n], R], f, obn)
         if c.op == "mttkrp":
-            e = one(a["n"], ob)
+            e = one(a["n"], ob) + gkind(c, ob, None, None)
             # the factor list the kernels receive: get_mttkrp_factors absorbs a Kruskal operand's weights (Model/C02Absorb.v)
             UsK = Us if U["weights"] is None else f"(zget_mttkrp_factors_k {lam} {Us} {a['n']})"
             if X["rep"] == "dense" and ob["k"] == "array" and obs_ints(ob):
@@ -468,6 +699,9 @@ def coq_check(c, o):
                 lit = (f"zimpl_mttkrp_sp {tgen.gsparse(X['shape'], X['subs'], X['vals'])}" if X["rep"] == "sparse"
                        else f"zimpl_mttkrp_k {tgen.gktensor(X['weights'], X['factors'])}")
                 e += " && " + gmatch([shp[a["n"]], R], f"(fun i_ => {lit} {UsK} {a['n']} (nth 0 i_ 0%nat) (nth 1 i_ 0%nat))", ob)
+            if X["rep"] == "t":      # ttensor.mttkrp (Model/C02Tucker.v): U_n (core.mttkrp(U_i^T V_i, n))
+                lit = f"zimpl_mttkrp_t {tgen.gttensor(X['core_shape'], X['core_data'], X['factors'])}"
+                e += " && " + gmatch([shp[a["n"]], R], f"(fun i_ => {lit} {UsK} {a['n']} {R} (nth 0 i_ 0%nat) (nth 1 i_ 0%nat))", ob)
             return e
         if ob["k"] != "list" or len(ob["items"]) != N:
             return "false"
@@ -502,14 +736,38 @@ def coq_check(c, o):
     if c.op == "collapse":
         dims = list(range(N)) if a["dims"] is None else a["dims"]
         rs = [shp[m] for m in range(N) if m not in dims]
-        return gmatch(rs, f"(zsp_collapse {dX} {gnlist(shp)} {gnlist(sorted(dims))})", ob)
+        f = f"(zsp_collapse {dX} {gnlist(shp)} {gnlist(sorted(dims))})"
+        e = gmatch(rs, f, ob) + gkind(c, ob, rs, f)
+        if X["rep"] == "dense" and ob["k"] in ("dense", "scalar") and obs_ints(ob):     # transliteration of tensor.collapse (Model/C02Tenmat.v)
+            e += f" && dense_eqb (zimpl_collapse_dense {tgen.gdense(X['shape'], X['data'])} {gnlist(sorted(dims))}) {_dlit(ob)}"
+        if X["rep"] == "sparse":
+            e += " && " + gmatch(rs, f"(zimpl_collapse_sp {tgen.gsparse(X['shape'], X['subs'], X['vals'])} {gnlist(sorted(dims))})", ob)
+        return e
     if c.op == "contract":
         rs = [shp[m] for m in range(N) if m not in (a["i1"], a["i2"])]
-        return gmatch(rs, f"(zsp_contract {dX} {gnlist(shp)} {a['i1']} {a['i2']})", ob)
+        f = f"(zsp_contract {dX} {gnlist(shp)} {a['i1']} {a['i2']})"
+        e = gmatch(rs, f, ob) + gkind(c, ob, rs, f)
+        if X["rep"] == "dense" and ob["k"] in ("dense", "scalar") and obs_ints(ob):
+            e += f" && dense_eqb (zimpl_contract_dense {tgen.gdense(X['shape'], X['data'])} {a['i1']} {a['i2']}) {_dlit(ob)}"
+        if X["rep"] == "sparse":
+            e += " && " + gmatch(rs, f"(zimpl_contract_sp {tgen.gsparse(X['shape'], X['subs'], X['vals'])} {a['i1']} {a['i2']})", ob)
+        return e
     if c.op == "scale":
         sd = sorted(a["dims"])
         g = f"(zden {tgen.gdense(a['fshape'], a['fdata'])})"
-        return gmatch(shp, f"(zsp_scale {dX} {gnlist(sd)} {g})", ob)
+        e = gmatch(shp, f"(zsp_scale {dX} {gnlist(sd)} {g})", ob) + gkind(c, ob, None, None)
+        if X["rep"] == "dense" and ob["k"] == "dense" and obs_ints(ob):
+            e += (f" && dense_eqb (zimpl_scale_dense {tgen.gdense(X['shape'], X['data'])} {gnlist(sd)} "
+                  f"{tgen.gdense(a['fshape'], a['fdata'])}) {_dlit(ob)}")
+        if X["rep"] == "sparse" and ob["k"] == "sparse" and obs_ints(ob):
+            # stored lists of the result: the operand's stored order, annihilated entries dropped (raw comparison unless the operand
+            # arose from a computation, whose stored order is pyttb's own)
+            mdl = f"(zimpl_scale_sp {tgen.gsparse(X['shape'], X['subs'], X['vals'])} {gnlist(sd)} {g})"
+            lit = tgen.gsparse(ob["shape"], ob["subs"], ob["vals"])
+            if X.get("origin") is None and X["subs"]:
+                e += f" && sp_raw_eqb {mdl} {lit}"
+            e += f" && wf_spb zisz {lit} && fun_matches {gnlist(shp)} (zden_sp {mdl}) (zden_sp {lit})"
+        return e
     if c.op == "mask":
         if not tgen.all_int(ob["vals"]):
             return "false"
@@ -517,8 +775,13 @@ def coq_check(c, o):
         wnz = sum(1 for v in pdense(W) if v != 0)
         dW = gden(W)
         ws = gnmat(ob["wsubs"])
+        extra = ""
+        if X["rep"] == "dense":
+            extra = f" && vec_eqb (zimpl_mask_dense {tgen.gdense(X['shape'], X['data'])} {ws}) {gzlist(ob['vals'])}"
+        if X["rep"] == "sparse":
+            extra = f" && vec_eqb (zimpl_mask_sp {tgen.gsparse(X['shape'], X['subs'], X['vals'])} {ws}) {gzlist(ob['vals'])}"
         return (f"(Nat.eqb (length {ws}) {wnz} && nodupb {ws} && forallb (fun i_ => negb ({dW} i_ =? 0)%Z && inb {gnlist(shp)} i_) {ws} "
-                f"&& vec_eqb (map {dX} {ws}) {gzlist(ob['vals'])})")
+                f"&& vec_eqb (map {dX} {ws}) {gzlist(ob['vals'])})") + extra
     if c.op == "reconstruct":
         sel = ["None"] * N
         rs = list(shp)
@@ -531,7 +794,11 @@ def coq_check(c, o):
         s2 = shape_of(Y)
         sd, od = (a["sd"] or []), (a["od"] or [])
         rs = [shp[m] for m in range(N) if m not in sd] + [s2[m] for m in range(len(s2)) if m not in od]
-        return gmatch(rs, f"(zsp_ttt {dX} {gnlist(shp)} {gden(Y)} {gnlist(s2)} {gnlist(sd)} {gnlist(od)})", ob)
+        e = gmatch(rs, f"(zsp_ttt {dX} {gnlist(shp)} {gden(Y)} {gnlist(s2)} {gnlist(sd)} {gnlist(od)})", ob) + gkind(c, ob, None, None)
+        if ob["k"] in ("dense", "scalar") and obs_ints(ob):
+            e += (f" && dense_eqb (zimpl_ttt_dense {tgen.gdense(X['shape'], X['data'])} {tgen.gdense(Y['shape'], Y['data'])} "
+                  f"{gnlist(sd)} {gnlist(od)}) {_dlit(ob)}")
+        return e
     if c.op == "ttsv":
         first = 0 if a["skip"] is None else a["skip"] + 1
         dims = list(range(first, N))
@@ -667,7 +934,9 @@ def oracle(c, o):
     got = obs_pdense(ob)
     if list(got[0]) != list(want[0]) or list(got[1]) != list(want[1]):
         return f"result {got} differs from the defining sum over indices {want}"
-    return None
+    if ob["k"] == "sparse" and not (ob["nnz"] == len(ob["subs"]) == len(ob["vals"])):
+        return f"sparse result reports nnz={ob['nnz']} but stores {len(ob['subs'])} subscripts / {len(ob['vals'])} values"
+    return kind_oracle(c, ob, want)
 
 
 # ---------------------------------------------------------------- known findings
